@@ -24,6 +24,9 @@ func (m *Machine) callValue(fv Value, cc *ssa.CallCommon, args []Value) Value {
 			m.require(False, "panic", "nil interface method call "+cc.Method.Name())
 		}
 		if op, ok := i.v.(*Opaque); ok {
+			if strings.HasPrefix(op.tag, "error:") && cc.Method.Name() == "Error" {
+				return strLit(strings.TrimPrefix(op.tag, "error:")) // errors.New / fmt.Errorf: the (format) text
+			}
 			return m.havoc(cc.Signature().Results(), op.tag+"."+cc.Method.Name())
 		}
 		fn := m.prog.LookupMethod(i.t, cc.Method.Pkg(), cc.Method.Name())
@@ -433,6 +436,13 @@ func (m *Machine) intrinsic(name string, fn *ssa.Function, args []Value) (Value,
 			b.st.Write(Bin("bvadd", b.off, BV(64, uint64(i))), m.newVar("rand", 8))
 		}
 		return Tuple{b.len, Iface{}}, true
+	case "errors.Is":
+		// the errors the repo compares are plain sentinel values (no Unwrap chains reach here)
+		a, b := args[0].(Iface), args[1].(Iface)
+		if a.t == nil || b.t == nil {
+			return Bool(a.t == nil && b.t == nil), true
+		}
+		return m.valEq(a, b), true
 	case "errors.New", "fmt.Errorf":
 		m.opaqueSeq++
 		var v Value = &Opaque{tag: "error:" + describeStr(args[0]), id: m.opaqueSeq}
